@@ -266,6 +266,7 @@ func (c *Client) registerSubscription_NeedsSubMuxLock(sub *Subscription) error {
 	}
 
 	c.subs[sub.SubscriptionID] = sub
+	c.updatePublishTimeout_NeedsSubMuxLock()
 	return nil
 }
 
